@@ -45,6 +45,7 @@ LexLess(a, b) ==
 
 PrefixOf(form) == CASE form = "id" -> <<105, 100, 58, 32>>      \* "id: "
                     [] form = "kv" -> <<107, 61>>               \* "k="
+                    [] form = "ide" -> <<105, 100, 58>>         \* "id:"  (no space: the key may be empty)
                     [] OTHER       -> <<>>
 SuffixOf(sfx)  == IF sfx = 0 THEN <<>> ELSE <<32, 35, 48 + sfx>> \* " #1", " #2"
 
@@ -57,10 +58,13 @@ Trimmed(l) == IF IsBlank(l) THEN <<>> ELSE PrefixOf(l.form) \o l.key \o SuffixOf
 \*   "none"  : the trimmed line, blank lines skipped
 \*   "group" : regex  id: (?P<value>[^ ]+)   -> the named group
 \*   "plain" : regex  k=[^ ]+                -> the whole match
+\*   "gstar" : regex  id:(?P<value>[^ ]*)    -> the named group, which may be EMPTY: a matching line with an empty
+\*             key is a key line like any other ("id:" alone, or "id: x" where the group stops at the space)
 KeyOf(l, pat) ==
   CASE pat = "none"  -> IF IsBlank(l) THEN None ELSE Some(Trimmed(l))
     [] pat = "group" -> IF l.form = "id" THEN Some(l.key) ELSE None
     [] pat = "plain" -> IF l.form = "kv" THEN Some(PrefixOf("kv") \o l.key) ELSE None
+    [] pat = "gstar" -> IF l.form = "ide" THEN Some(l.key) ELSE IF l.form = "id" THEN Some(<<>>) ELSE None
 
 \* Numbers: the decimal spellings  -?[0-9]+(\.[0-9])?  with their value in tenths.  Anything else
 \* (exponents, inf, nan, a leading '+' or '.') is "not numeric" for the contract, i.e. gray.
